@@ -85,7 +85,9 @@ def answer_shapes(d):
     if d.get("answers") in ("oy", "on", "oeof") and d.get("n_other", 1) != 1:
         out.append("others:x%d" % d["n_other"])
     if d.get("link"):
-        out.append("link:%s@%s#%d" % (d["link"]["kind"], d["link"]["cls"], d["link"]["nth"]))
+        out.append("link:%s%s@%s#%d" % (d["link"]["kind"],
+                                        ("(%s)" % d["link"].get("how")) if d["link"]["kind"] == "err" else "",
+                                        d["link"]["cls"], d["link"]["nth"]))
     return (" answers=[%s]" % ",".join(out)) if out else ""
 
 
@@ -126,7 +128,7 @@ def random_scenario(rng):
         mode2=rng.choice(["signer", "signer", "signer"] + list(admin_ops.MODES)),
         keys=rng.choice(["t", "t", "t", "f"]), rng=rng, strict=rng.random() < 0.4,
         cli=rng.random() < 0.3, pre=rng.choice(admin_ops.PRE_KINDS[op]),
-        link=({"kind": rng.choice(admin_ops.LINK_KINDS), "how": rng.choice(["read", "write"]),
+        link=({"kind": rng.choice(admin_ops.LINK_KINDS), "how": rng.choice(admin_ops.ERR_HOWS + admin_ops.SUCCESS_LIKE),
                "cls": rng.choice(["get_mode", "is_onboard", "echo", "seed_byte", "pin_byte", "wipe", "sgx_onboard",
                                   "unlock", "change_pin", "get_pubkey", "exit", "admin"]),
                "nth": rng.choice([0, 0, 0, 1, 2, 5])} if rng.random() < 0.15 else None),
@@ -210,7 +212,7 @@ def run(ctx):
 
     # 3a. every behaviour once, one seeded member of its PIN content class
     n_fav = 0
-    n_link, link_kinds, n_plain = 0, {}, 0
+    n_link, link_kinds, n_plain, n_how, how_groups = 0, {}, 0, 0, set()
     for k, bi in enumerate(order):
         b = behaviours[bi]
         if b["env"]["link"] != "?":
@@ -223,6 +225,20 @@ def run(ctx):
             sc.desc["cli"] = (k % 4 == 0)
             record(sc, "l%d" % bi, "model-behaviour, link fault", b)
             n_link += 1
+            # the kind of failure behind "err": every one of them (read / write error, status words of
+            # each class, an unclassified transport exception) where nothing else deviates; for
+            # onboarding with the device's true onboarded state drawn both ways
+            group = (b["cfg"]["op"], b["cfg"]["plat"], b["env"]["linkat"])
+            if b["env"]["link"] == "err" and admin_ops.clean_prefix(b) and (
+                    not ctx.quick or group not in how_groups):
+                how_groups.add(group)
+                truths = ("yes", "no") if (b["cfg"]["op"] == "onboard" and b["env"]["onb"] == "?") else (None,)
+                for how in admin_ops.hows_at(b["env"]["linkat"]):
+                    for truth in truths:
+                        sc = admin_ops.scenario_from_model(b["cfg"], b["env"], ctx.rng, favourable=True,
+                                                           hist=b["hist"], how=how, truth_onb=truth)
+                        record(sc, "h%d" % bi, "failure kind %s" % how, b)
+                        n_how += 1
             key = "%s@%s" % (b["env"]["link"], b["env"]["linkat"])
             link_kinds[key] = link_kinds.get(key, 0) + 1
             continue
@@ -241,6 +257,7 @@ def run(ctx):
     res.coverage["behaviours_replayed"] = n_plain + n_link
     res.coverage["refusals_replayed_with_rest_favourable"] = n_fav
     res.coverage["link_fault_behaviours_replayed"] = n_link
+    res.coverage["failure_kind_runs"] = {"kinds": list(admin_ops.ERR_HOWS), "runs": n_how}
     res.coverage["link_faults_by_kind_and_position"] = dict(sorted(link_kinds.items()))
     # 3b. a seed-selected subset again, through the command-line front end (argparse builds the options)
     n_cli = ctx.pick(250, len(order))
